@@ -757,6 +757,16 @@ def oracle(obs):
             if set(fired_keys) & set(o['queue']):
                 bad.append(('raised-callback-requeued', 'a callback that was executed (the last one raised) is still queued: %r'
                             % (sorted(set(fired_keys) & set(o['queue']))[:3],)))
+            # the state after the exception (Lean: raise_eq_fuel_out / trace_consistent for any status): the clock is the
+            # one the raising callback saw - the stretch integrated up to it is neither rolled back nor extended - and
+            # the stretches integrated so far add up to the clock's movement
+            if fires and o['t1'] != fires[-1][4]:
+                bad.append(('clock-after-exception', 'the callback due at %r raised with the clock at %r; afterwards the clock is %r'
+                            % (fires[-1][1], fires[-1][4], o['t1'])))
+            dts_x = [e[1] for e in o['events'] if e[0] == 'I']
+            if abs(sum(dts_x) - (o['t1'] - o['t0'])) > 1e-9 * max(1.0, abs(o['t1'])):
+                bad.append(('tiling', 'interrupted by an exception: integration intervals sum to %r but the clock moved by %r'
+                            % (sum(dts_x), o['t1'] - o['t0'])))
             want = o['guard'] if o['status'] == 'fuel' else o['pre']
             if len(fires) != want:
                 bad.append(('guard', 'the guard tripped after %d callbacks, not %d' % (len(fires), want)))
